@@ -163,3 +163,26 @@ package adt
 //@   ensures [keepy] isType(result, *BoundValue) && result.(*BoundValue) == y ==> forall ak Kind, ai int, af real, as string, ab bool :: validAtom(ak, ai, af) && ak & k != 0 && satBound(y, ak, ai, af, as, ab) ==> satBound(x, ak, ai, af, as, ab)
 //@   ensures [bottom] isBottomV(result) ==> forall ak Kind, ai int, af real, as string, ab bool :: validAtom(ak, ai, af) && ak & k != 0 ==> !(satBound(x, ak, ai, af, as, ab) && satBound(y, ak, ai, af, as, ab))
 //@   assigns ctx.errs, ctx.src
+
+// ---- kinds of values (used by C03, C07, C20) ----
+
+// Value.Kind, dispatched dynamically: each concrete scalar type returns its
+// constant kind (the one-line methods in expr.go); a *Num returns its K field.
+//@ func (Value).Kind
+//@   assumed A-int: dynamic dispatch to the one-line Kind methods of the concrete value types
+//@   ensures isNumV(recv) ==> result == recv.(*Num).K
+//@   ensures isStrV(recv) ==> result == StringKind
+//@   ensures isBytesV(recv) ==> result == BytesKind
+//@   ensures isBoolV(recv) ==> result == BoolKind
+//@   ensures isNullV(recv) ==> result == NullKind
+//@   ensures isBottomV(recv) ==> result == BottomKind
+
+// (P) C03: "a bound also restricts the value to the kind of its operand - any
+// number for a numeric operand - except that !=null admits every non-null value"
+//@ func (*BoundValue).Kind
+//@   requires x != nil && scalarV(x.Value) && wfV(x.Value)
+//@   ensures result == boundKind(x)
+
+//@ func IsConcrete
+//@   assumed A-int: concreteness of a value; for the scalar types it is true
+//@   ensures scalarV(v) ==> result
